@@ -815,6 +815,27 @@ func c12GenHistory(r *vRand, cfg c12Cfg, maxEv int) []c12Ev {
 		evs = append(evs, c12Ev{op: "tick", a: [5]int{d}})
 	}
 	fam := func() int { return cfg.fams[r.intn(len(cfg.fams))].id }
+	// what the scripted peer has announced so far, per (family, prefix): a peer whose configuration did not
+	// change re-announces byte-identical routes after a restart (the normal case), so a large share of the
+	// announcements repeats an earlier one exactly (same attributes, same next hop)
+	type annKey struct{ fam, key int }
+	last := map[annKey][2]int{}
+	lastKeys := []annKey{}
+	announce := func() {
+		if len(lastKeys) > 0 && r.chance(55) {
+			k := lastKeys[r.intn(len(lastKeys))]
+			v := last[k]
+			evs = append(evs, c12Ev{op: "ann", a: [5]int{k.fam, k.key, v[0], v[1], 0}})
+			return
+		}
+		ver++
+		k := annKey{fam(), r.intn(3)}
+		if _, ok := last[k]; !ok {
+			lastKeys = append(lastKeys, k)
+		}
+		last[k] = [2]int{ver, c12b(r.chance(25))}
+		evs = append(evs, c12Ev{op: "ann", a: [5]int{k.fam, k.key, ver, last[k][1], 0}})
+	}
 	connect := func() {
 		for state < 3 {
 			state++
@@ -829,14 +850,20 @@ func c12GenHistory(r *vRand, cfg c12Cfg, maxEv int) []c12Ev {
 		if cfg.lr {
 			cands = append(cands, now+cfg.deferral)
 		}
+		// table transfer of a restarted peer with unchanged configuration: the same routes again
+		if len(lastKeys) > 0 && r.chance(70) {
+			for n := 1 + r.intn(3); n > 0; n-- {
+				k := lastKeys[r.intn(len(lastKeys))]
+				evs = append(evs, c12Ev{op: "ann", a: [5]int{k.fam, k.key, last[k][0], last[k][1], 0}})
+			}
+		}
 	}
 	connect()
 	for len(evs) < maxEv {
 		if est {
 			switch x := r.intn(100); {
 			case x < 40:
-				ver++
-				evs = append(evs, c12Ev{op: "ann", a: [5]int{fam(), r.intn(3), ver, c12b(r.chance(25)), 0}})
+				announce()
 			case x < 47:
 				evs = append(evs, c12Ev{op: "wd", a: [5]int{fam(), r.intn(3)}})
 			case x < 67:
@@ -949,6 +976,18 @@ func c12RunHistory(t *testing.T, o *vOut, cfg c12Cfg, evs []c12Ev, corpus string
 					o.stat("ev_goto_idle", 1)
 				}
 			case "ann":
+				for _, cur := range e.adjIn() {
+					if cur.fam == ev.a[0] && cur.key == ev.a[1] && cur.ver == ev.a[2] && cur.noLL == (ev.a[3] == 1) {
+						switch {
+						case cur.nLL > 0:
+							o.stat("ann_original_attrs_over_llgr_stale_entry", 1)
+						case cur.stale:
+							o.stat("ann_identical_to_stale_entry", 1)
+						default:
+							o.stat("ann_identical_to_fresh_entry", 1)
+						}
+					}
+				}
 				e.announce(ev.a[0], ev.a[1], ev.a[2], ev.a[3] == 1, ev.a[4])
 				or.announce(ev.a[0], ev.a[1], ev.a[2], ev.a[3] == 1)
 				o.stat("ev_ann", 1)
@@ -1006,6 +1045,9 @@ var c12Corpus = []struct{ name, hist string }{
 	{"second-llgr-cycle-never-starts", "reset 1 0 1 33 0 2 0 1 1 1; goto 1 0; goto 2 0; goto 3 0; est 1 0 0 7 2 0 1 1 1 0 25; ann 1 0 2 0 0; loss 0; tick 40; goto 1 0; goto 2 0; goto 3 0; est 1 0 0 7 2 0 1 1 1 0 25; ann 1 1 3 0 0; eor 0; loss 0; tick 10"},
 	{"llgr-timer-removes-fresh-routes", "reset 1 0 1 33 0 1 0 1; goto 1 0; goto 2 0; goto 3 0; est 1 0 0 7 1 0 1 1 0 25; ann 0 0 2 0 0; loss 0; tick 20; goto 1 0; goto 2 0; goto 3 0; est 1 0 0 7 1 0 1 1 0 25; ann 0 1 3 0 0; tick 15"},
 	{"llgr-without-families", "reset 1 0 1 33 0 1 0 1; goto 1 0; goto 2 0; goto 3 0; est 1 0 0 7 1 0 1 0; ann 0 0 2 0 0; loss 0; tick 10; goto 1 0; goto 2 0; goto 3 0; est 1 0 0 7 1 0 1 0; ann 0 0 3 0 0; loss 0; tick 10"},
+	{"identical-reannouncement-is-fresh", "reset 1 0 0 33 0 1 0 1; goto 1 0; goto 2 0; goto 3 0; est 1 0 0 20 1 0 0 0; ann 0 1 2 0 0; ann 0 2 3 0 0; eor 0; loss 0; tick 5; goto 1 0; goto 2 0; goto 3 0; est 1 0 0 20 1 0 0 0; ann 0 1 2 0 0; eor 0; tick 30"},
+	{"identical-reannouncement-second-loss", "reset 1 0 0 33 0 1 0 1; goto 1 0; goto 2 0; goto 3 0; est 1 0 0 20 1 0 0 0; ann 0 1 2 0 0; loss 0; goto 1 0; goto 2 0; goto 3 0; est 1 0 0 20 1 0 0 0; ann 0 1 2 0 0; loss 2; goto 1 0; goto 2 0; goto 3 0; est 1 0 0 20 1 0 0 0; ann 0 1 2 0 0; eor 0"},
+	{"identical-reannouncement-under-llgr", "reset 1 0 1 33 0 2 0 1 1 1; goto 1 0; goto 2 0; goto 3 0; est 1 0 0 7 2 0 1 1 1 0 50; ann 0 1 2 0 0; ann 1 1 3 0 0; loss 0; tick 3; goto 1 0; goto 2 0; goto 3 0; est 1 0 0 7 2 0 1 1 1 0 50; ann 1 1 3 0 0; loss 0; tick 10; goto 1 0; goto 2 0; goto 3 0; est 1 0 0 7 2 0 1 1 1 0 50; ann 0 1 2 0 0; tick 50; eor 0; eor 1"},
 	{"llgr-stale-attached-once-admin-down", "reset 1 0 1 33 0 1 0 1; goto 1 0; goto 2 0; goto 3 0; est 1 0 0 7 1 0 1 1 0 50; ann 0 0 2 0 0; loss 0; tick 10; goto 1 0; goto 0 1; tick 1"},
 	{"llgr-stale-attached-once-second-loss", "reset 1 0 1 33 0 1 0 1; goto 1 0; goto 2 0; goto 3 0; est 1 0 0 7 1 0 1 1 0 50; ann 0 0 2 0 0; loss 0; tick 10; goto 1 0; goto 2 0; goto 3 0; est 1 0 0 7 1 0 1 1 0 50; loss 0; tick 8; tick 40"},
 	{"hard-loss-leaves-llgr-timers", "reset 1 0 1 33 0 2 0 1 1 1; goto 1 0; goto 2 0; goto 3 0; est 1 0 0 7 2 0 1 1 2 0 25 1 55; ann 0 0 2 0 0; loss 0; tick 10; goto 1 0; goto 2 0; goto 3 0; est 1 0 0 60 2 0 1 0 0; loss 6; goto 1 0; goto 2 0; goto 3 0; est 1 0 0 60 2 0 1 0 0; ann 1 1 3 0 0; loss 0; tick 55"},
